@@ -222,7 +222,7 @@ func tAvc(data []byte) (n int) {
 	return
 }
 
-// websocket frame reader. data[0] selects the configuration: bit0 compression, bit1 read limit, bit2 small buffer.
+// websocket frame reader. data[0] selects the configuration: bit0 compression, bit1 read limit, bit2 small buffer, bit3 streaming reads (NextReader).
 func tWebsocket(data []byte, server bool) (n int) {
 	var cfgb byte
 	if len(data) > 0 {
@@ -245,6 +245,31 @@ func tWebsocket(data []byte, server bool) (n int) {
 	}
 	if cfgb&2 != 0 {
 		c.SetReadLimit(1000)
+	}
+	if cfgb&8 != 0 {
+		// the streaming API: read each message through NextReader in small pieces, read once more
+		// after its end, and touch the previous message's reader after moving on (each is an error
+		// or end of data for the application, never a crash)
+		var prev io.Reader
+		buf := make([]byte, 7)
+		for i := 0; i < 1<<16; i++ {
+			_, r, err := c.NextReader()
+			if prev != nil {
+				prev.Read(buf)
+			}
+			if err != nil {
+				return
+			}
+			for {
+				if _, e := r.Read(buf); e != nil {
+					break
+				}
+			}
+			r.Read(buf)
+			prev = r
+			n++
+		}
+		return
 	}
 	for i := 0; i < 1<<16; i++ {
 		if _, _, err := c.ReadMessage(); err != nil {
